@@ -6,6 +6,8 @@ BINARIES = {
     "llm": {"pkg": "./internal/llm"},
     "cli": {"pkg": "./internal/cli"},
     "pebbledb_race": {"pkg": "./pkg/storage/pebbledb", "race": True},
+    "diff": {"pkg": "./pkg/diff"},
+    "diff_race": {"pkg": "./pkg/diff", "race": True},
     "jsondb_race": {"pkg": "./pkg/storage/jsondb", "race": True},
 }
 
@@ -17,6 +19,25 @@ STORE_STUB = {
 }
 
 CHECKS = {
+    "C01": {
+        "level": "exploration",
+        "budget": {"quick": 60, "thorough": 1200},
+        "rule": ("one evaluation = 1-4 concurrent caller tasks inside a synctest bubble, each issuing 1-4 fingerprint calls over generated source files (loops with several induction "
+                 "variables, nested and sibling loops, >=/> branches, select, type switches, closures, methods, generics) with a tape-chosen literal policy and strict flag; the tape decides "
+                 "the interleaving at every acquisition of a pooled canonicaliser, which previously released object (after whichever other function) or a fresh one is handed out, the "
+                 "iteration order of every map range in repository code, and GOMAXPROCS; a fraction of runs re-analyses the file from another directory. Each call's (name, fingerprint, "
+                 "canonical IR) list must equal the clean sequential reference. Non-trivial = pooled state reused and (>= 2 tasks or a non-identity map order); distinct = distinct "
+                 "(programs, schedule, GOMAXPROCS). The fpstress job repeats the workload free-running under the race detector."),
+        "jobs": [
+            {"engine": "fpsim", "bin": "diff", "test": "TestVerifC01", "cfg": {}, "cpu": 4, "weight": 12},
+            {"engine": "fpsim", "bin": "diff", "test": "TestVerifC01", "cfg": {"universe": "1"}, "cpu": 4, "weight": 2},
+            {"engine": "fpstress", "bin": "diff_race", "test": "TestVerifC01Stress", "cfg": {}, "race": True, "cpu": 8, "weight": 2},
+        ],
+        "assumptions": ["map iteration inside dependencies (x/tools SSA builder, go/types) is not steered, only sampled across processes",
+                        "each concurrent caller analyses its own loaded copy of the packages, as the product's per-file workers do"],
+        "real_vs_stub": {"code_under_test": "real (pkg/diff, pkg/analysis/ir, pkg/analysis/loop; instrumented R1,R2)", "ssa_builder_and_loader": "real",
+                         "caller_scheduling": "simulated (synctest bubble, park point at every pool acquisition)", "sync.Pool": "simulated (R2)", "map_iteration_in_repo_code": "simulated (R1)"},
+    },
     "C16": {
         "level": "exploration",
         "budget": {"quick": 75, "thorough": 1200},
@@ -148,10 +169,17 @@ NOT_APPLICABLE = {
     "C19": "rename recognition and similarity symmetry are pure functions of two files / two topologies (tie-break stability is C10); " + PURE,
     "C20": "path-refusal is a pure function of a path spelling and a static symlink layout; " + PURE,
     # claimed in DESIGN.md, harness not finished yet (moved to checks as each lands):
-    "C01": "PENDING: fpsim harness (pooled canonicaliser + map-order + concurrent callers) not yet built in this revision",
 }
 
 MANIFEST_TEXT = {
+    "C01": {
+        "engine": "fpsim",
+        "technique": "deterministic simulation: tape-driven interleaving of concurrent fingerprint callers in a synctest bubble, adversarial simulated pool (reuse history), controlled map-iteration order; byte equality with a clean sequential reference; race-detector stress",
+        "design_ref": "DESIGN.md §3 C01",
+        "level_text": ("Seeded search over caller interleavings, pooled-state reuse histories, map-iteration orders, GOMAXPROCS and file locations; every fingerprint call is compared byte for byte "
+                       "(names, fingerprints, canonical IR) with a clean single-task reference for the same source, policy and strict flag."),
+        "level_note": "Trusts: the reference execution (identity order, fresh pooled state); nondeterminism inside x/tools is only sampled.",
+    },
     "C16": {
         "engine": "clisim",
         "technique": "deterministic simulation with fault injection at the FileSystem seam (EIO/EACCES/ENOENT/oversize/unreadable directories) under a tape-driven worker schedule; coverage and strict-mode invariants against generated ground truth",
